@@ -9,6 +9,8 @@ R13.5 cached momenta and Jacobians consumed by the moments stay mutually consist
 Recognition is spelling-independent: getDeltas is read through the forward substitution of c12 (`Flat`: locals, temporaries and
 simple helpers are replaced by their definitions) and every weight is compared as a sympy term over ROLE symbols (momenta,
 Jacobians, masses: identified by the public attribute / method they are read from); arguments are bound by keyword or position.
+Copy-pasted statements folded into one comprehension / loop over a literal collection of cases (tuple, list, dict display, zip / enumerate /
+.items() of them; unpacked, indexed, or splatted into a call with * / **) are written out case by case first (`written_out`).
 """
 from __future__ import annotations
 
@@ -57,9 +59,297 @@ def _none_given(param: str):
     return choose
 
 
+# ------------------------------------------------------------------------------------------------ comprehensions over literal cases
+# Four copy-pasted statements (`Delta02 = poly.integrate((2, 3), pz**2 * w)` ..., `Delta02 = deltas.Delta02.coefficients[:, i]` ...) may be
+# folded into one comprehension over a literal collection of cases -- a tuple / list / dict display, possibly held in a single-assignment
+# temporary, possibly through zip / enumerate / .items() -- whose result is unpacked (`a, b = (f(x) for x in (p, q))`) or splatted into a
+# call (`C(**{k: f(w) for k, w in weights.items()})`, `C(*[f(w) for w in ws])`).  `written_out` writes such code out again: one element per
+# case with the comprehension variables substituted, `**{"k": v}` as the keyword argument `k=v`, `*[a, b]` as positional arguments.  The
+# written-out form evaluates the same element expressions on the same case values in the same order, so the rules see the statements the
+# folded form executes, whichever way the code is folded.  A loop that only collects (`X = {}` + `for ..: X[k] = v`, `X = []` + `for ..:
+# X.append(v)`) is the comprehension it spells (`_collecting_loops`); `d["k"]` / `t[1]` of a display held in a local that is only read is
+# that element; other `for` statements over literal cases are written out by c01.normalised.  A list / dict that is stored into, aliased or
+# handed to a callee after it was built is not a literal collection (`frozen`): code folded over it is left as it is, and the rule reports.
+
+
+def _binds(e) -> set:
+    """names bound by lambdas / comprehensions inside e"""
+    out = set()
+    for x in ast.walk(e):
+        if isinstance(x, ast.Lambda):
+            out |= {a.arg for a in ast.walk(x.args) if isinstance(a, ast.arg)}
+        elif isinstance(x, ast.comprehension):
+            out |= {t.id for t in ast.walk(x.target) if isinstance(t, ast.Name)}
+        elif isinstance(x, ast.NamedExpr):
+            out |= {t.id for t in ast.walk(x.target) if isinstance(t, ast.Name)}
+    return out
+
+
+class _WriteOut(ast.NodeTransformer):
+    MAX_CASES = 12
+    READERS = ("items", "values", "keys", "get", "copy", "index", "count")
+
+    def __init__(self, S, fi, node):
+        self.orig, self.fn = fi.node, node            # node: the copy of fi.node that is rewritten
+        self.defs = Ctx(S, fi).local_defs()
+        self.changed = False
+        self._frozen: dict = {}
+
+    def visit_FunctionDef(self, x):
+        return self.generic_visit(x) if x is self.fn else x        # nested functions have their own temporaries
+
+    visit_AsyncFunctionDef = visit_FunctionDef
+
+    # -- literal collections
+    def frozen(self, name: str) -> bool:
+        """the list / dict held by this single-assignment local is only read after it was built (never stored into, passed on or asked to change)"""
+        if name not in self._frozen:
+            ok = True
+            parent = {id(c): p for p in ast.walk(self.orig) for c in ast.iter_child_nodes(p)}
+            for x in ast.walk(self.orig):
+                if not (isinstance(x, ast.Name) and x.id == name and isinstance(x.ctx, ast.Load)):
+                    continue
+                p = parent.get(id(x))
+                if isinstance(p, (ast.Subscript, ast.Attribute)) and p.value is x:
+                    pp = parent.get(id(p))
+                    if not isinstance(p.ctx, ast.Load):
+                        ok = False
+                    elif isinstance(p, ast.Attribute) and not (isinstance(pp, ast.Call) and pp.func is p and p.attr in self.READERS):
+                        ok = False
+                    elif isinstance(pp, (ast.Subscript, ast.Attribute)) and pp.value is p and not isinstance(pp.ctx, ast.Load):
+                        ok = False
+                elif isinstance(p, ast.Call) and p.func is not x and not (isinstance(p.func, ast.Name) and p.func.id in ("len", "zip", "enumerate", "tuple", "list", "dict", "sorted", "reversed")):
+                    ok = False           # handed to a callee that might keep or change it
+                elif isinstance(p, ast.keyword) and p.arg is not None:
+                    ok = False
+                elif isinstance(p, ast.Assign) and p.value is x and all(isinstance(t, (ast.Tuple, ast.List)) for t in p.targets):
+                    pass                 # unpacked
+                elif isinstance(p, (ast.Assign, ast.AnnAssign, ast.AugAssign, ast.Return, ast.Tuple, ast.List, ast.Dict, ast.Set)):
+                    ok = False           # aliased
+            self._frozen[name] = ok
+        return self._frozen[name]
+
+    def display(self, e, kinds):
+        """the display of one of `kinds` that e is (directly, or held in a single-assignment local that is only read)"""
+        for _ in range(4):
+            if isinstance(e, kinds):
+                return e
+            if isinstance(e, ast.Name) and e.id in self.defs and isinstance(self.defs[e.id], (ast.Tuple, ast.List, ast.Dict, ast.Name)) \
+                    and (isinstance(self.defs[e.id], (ast.Tuple, ast.Name)) or self.frozen(e.id)):
+                e = self.defs[e.id]
+            else:
+                return None
+        return None
+
+    def dict_items(self, e):
+        d = self.display(e, ast.Dict)
+        if d is None or any(k is None or not (isinstance(k, ast.Constant) and isinstance(k.value, (str, int))) for k in d.keys) \
+                or len({(type(k.value), k.value) for k in d.keys}) != len(d.keys):
+            return None
+        return list(zip(d.keys, d.values))
+
+    def cases(self, it):
+        from .c01 import _literal_cases
+        if isinstance(it, ast.Call) and isinstance(it.func, ast.Attribute) and it.func.attr in ("items", "values", "keys") and not it.args and not it.keywords:
+            kv = self.dict_items(it.func.value)
+            if kv is None:
+                return None
+            return [ast.Tuple(elts=[k, v], ctx=ast.Load()) if it.func.attr == "items" else v if it.func.attr == "values" else k for k, v in kv]
+        kv = self.dict_items(it)
+        if kv is not None:
+            return [k for k, _ in kv]
+        # lists held in a temporary must not have been changed since they were built
+        for x in ast.walk(it):
+            if isinstance(x, ast.Name) and x.id in self.defs and isinstance(self.defs[x.id], ast.List) and not self.frozen(x.id):
+                return None
+        return _literal_cases(it, self.defs)
+
+    def elements(self, comp, heads):
+        """[substitution applied to every head] per case, or None when the comprehension does not run over literal cases"""
+        from .c01 import _bind_target, _chain, _Subst
+        if len(comp.generators) != 1:
+            return None
+        g = comp.generators[0]
+        if g.ifs or g.is_async or any(not isinstance(x, (ast.Name, ast.Tuple, ast.List, ast.Store)) for x in ast.walk(g.target)):
+            return None
+        cases = self.cases(g.iter)
+        if cases is None or not (0 < len(cases) <= self.MAX_CASES):
+            return None
+        # cases written inside the comprehension are all evaluated before the first element: they may only read, not call
+        if any(isinstance(y, (ast.NamedExpr, ast.Yield, ast.YieldFrom, ast.Await, ast.Lambda, ast.Call)) for d in ast.walk(g.iter) if isinstance(d, (ast.Tuple, ast.List, ast.Dict))
+               for e in ast.iter_child_nodes(d) for y in ast.walk(e)):
+            return None
+        targets = {x.id for x in ast.walk(g.target) if isinstance(x, ast.Name)}
+        if any(targets & _binds(h) for h in heads):
+            return None
+        out = []
+        for c in cases:
+            bind: dict = {}
+            if not _bind_target(g.target, c if isinstance(g.target, ast.Name) else _chain(self.defs, c), bind):
+                return None
+            out.append([ast.copy_location(_Subst(bind).visit(copy.deepcopy(h)), h) for h in heads])
+        return out
+
+    def visit_ListComp(self, x):
+        self.generic_visit(x)
+        el = self.elements(x, [x.elt])
+        if el is None:
+            return x
+        self.changed = True
+        return ast.copy_location(ast.List(elts=[e[0] for e in el], ctx=ast.Load()), x)
+
+    def visit_DictComp(self, x):
+        self.generic_visit(x)
+        el = self.elements(x, [x.key, x.value])
+        if el is None:
+            return x
+        self.changed = True
+        return ast.copy_location(ast.Dict(keys=[e[0] for e in el], values=[e[1] for e in el]), x)
+
+    def _generator(self, x):
+        """a generator expression that is consumed completely, at once, by the construct it is written in: the tuple of its elements"""
+        if not isinstance(x, ast.GeneratorExp):
+            return None
+        el = self.elements(x, [x.elt])
+        if el is None:
+            return None
+        self.changed = True
+        return ast.copy_location(ast.Tuple(elts=[e[0] for e in el], ctx=ast.Load()), x)
+
+    def visit_Subscript(self, x):
+        """`d["k"]` / `t[1]` of a display (held in a local that is only read): that element"""
+        self.generic_visit(x)
+        if not isinstance(x.ctx, ast.Load) or not isinstance(x.value, ast.Name):
+            return x
+        k = x.slice
+        if isinstance(k, ast.UnaryOp) and isinstance(k.op, ast.USub) and isinstance(k.operand, ast.Constant) and isinstance(k.operand.value, int):
+            k = ast.Constant(value=-k.operand.value)
+        if not (isinstance(k, ast.Constant) and isinstance(k.value, (str, int)) and not isinstance(k.value, bool)):
+            return x
+        kv = self.dict_items(x.value)
+        if kv is not None:
+            hit = [v for kk, v in kv if type(kk.value) is type(k.value) and kk.value == k.value]
+            if len(hit) == 1:
+                self.changed = True
+                return ast.copy_location(copy.deepcopy(hit[0]), x)
+            return x
+        seq = self.display(x.value, (ast.Tuple, ast.List))
+        if seq is not None and isinstance(k.value, int) and not any(isinstance(e, ast.Starred) for e in seq.elts) and -len(seq.elts) <= k.value < len(seq.elts):
+            self.changed = True
+            return ast.copy_location(copy.deepcopy(seq.elts[k.value]), x)
+        return x
+
+    def visit_Assign(self, x):
+        self.generic_visit(x)
+        if len(x.targets) == 1 and isinstance(x.targets[0], (ast.Tuple, ast.List)):
+            x.value = self._generator(x.value) or x.value
+        return x
+
+    def visit_Call(self, x):
+        self.generic_visit(x)
+        d = dotted(x.func) or ""
+        if d in ("tuple", "list", "sum", "np.sum", "np.array", "np.asarray", "max", "min") and len(x.args) == 1 and not x.keywords:
+            x.args = [self._generator(x.args[0]) or x.args[0]]
+        # f(*[a, b]) == f(a, b);  f(**{"k": v}) == f(k=v)
+        args = []
+        for a in x.args:
+            if isinstance(a, ast.Starred):
+                a.value = self._generator(a.value) or a.value
+            disp = self.display(a.value, (ast.Tuple, ast.List)) if isinstance(a, ast.Starred) else None
+            if disp is not None and not any(isinstance(e, ast.Starred) for e in disp.elts):
+                args += [copy.deepcopy(e) for e in disp.elts]
+                self.changed = True
+            else:
+                args.append(a)
+        kws = []
+        for k in x.keywords:
+            kv = self.dict_items(k.value) if k.arg is None else None
+            if kv is not None and all(isinstance(kk.value, str) and kk.value.isidentifier() for kk, _ in kv):
+                kws += [ast.keyword(arg=kk.value, value=copy.deepcopy(v)) for kk, v in kv]
+                self.changed = True
+            else:
+                kws.append(k)
+        x.args, x.keywords = args, kws
+        return x
+
+
+def _mentions(e, name: str) -> bool:
+    return any(isinstance(x, ast.Name) and x.id == name for x in ast.walk(e))
+
+
+def _collecting_loops(stmts: list) -> tuple:
+    """`X = {}` + `for T in IT: X[K] = V`  is  `X = {K: V for T in IT}`;  `X = []` + `for T in IT: X.append(V)`  is  `X = [V for T in IT]`
+    (exactly: the loop directly follows the empty display, its body is that one statement, and neither IT, K nor V reads X)"""
+    out, changed, i = [], False, 0
+    while i < len(stmts):
+        st = stmts[i]
+        nxt = stmts[i + 1] if i + 1 < len(stmts) else None
+        new = None
+        if isinstance(st, (ast.Assign, ast.AnnAssign)) and st.value is not None and isinstance(nxt, ast.For) and not nxt.orelse and len(nxt.body) == 1:
+            t = st.targets[0] if isinstance(st, ast.Assign) and len(st.targets) == 1 else st.target if isinstance(st, ast.AnnAssign) else None
+            v, b = st.value, nxt.body[0]
+            empty = "dict" if (isinstance(v, ast.Dict) and not v.keys) or (isinstance(v, ast.Call) and dotted(v.func) == "dict" and not v.args and not v.keywords) else \
+                "list" if (isinstance(v, ast.List) and not v.elts) or (isinstance(v, ast.Call) and dotted(v.func) == "list" and not v.args and not v.keywords) else None
+            gen = ast.comprehension(target=nxt.target, iter=nxt.iter, ifs=[], is_async=0)
+            loopvars = {x.id for x in ast.walk(nxt.target) if isinstance(x, ast.Name)}
+            if isinstance(t, ast.Name) and empty and t.id not in loopvars and not _mentions(nxt.iter, t.id) \
+                    and all(isinstance(x, (ast.Name, ast.Tuple, ast.List, ast.Store)) for x in ast.walk(nxt.target)):
+                if empty == "dict" and isinstance(b, ast.Assign) and len(b.targets) == 1 and isinstance(b.targets[0], ast.Subscript) and isinstance(b.targets[0].value, ast.Name) \
+                        and b.targets[0].value.id == t.id and not _mentions(b.targets[0].slice, t.id) and not _mentions(b.value, t.id):
+                    new = ast.DictComp(key=b.targets[0].slice, value=b.value, generators=[gen])
+                elif empty == "list" and isinstance(b, ast.Expr) and isinstance(b.value, ast.Call) and isinstance(b.value.func, ast.Attribute) and b.value.func.attr == "append" \
+                        and isinstance(b.value.func.value, ast.Name) and b.value.func.value.id == t.id and len(b.value.args) == 1 and not b.value.keywords \
+                        and not isinstance(b.value.args[0], ast.Starred) and not _mentions(b.value.args[0], t.id):
+                    new = ast.ListComp(elt=b.value.args[0], generators=[gen])
+        if new is not None:
+            st2 = ast.Assign(targets=[ast.Name(id=t.id, ctx=ast.Store())], value=ast.copy_location(new, nxt))
+            out.append(ast.copy_location(st2, nxt))
+            changed = True
+            i += 2
+            continue
+        for fld in ("body", "orelse", "finalbody"):
+            sub = getattr(st, fld, None)
+            if isinstance(sub, list) and sub and isinstance(sub[0], ast.stmt) and not isinstance(st, (ast.FunctionDef, ast.AsyncFunctionDef, ast.ClassDef)):
+                new_sub, ch = _collecting_loops(sub)
+                setattr(st, fld, new_sub)
+                changed = changed or ch
+        for h in getattr(st, "handlers", []) or []:
+            h.body, ch = _collecting_loops(h.body)
+            changed = changed or ch
+        out.append(st)
+        i += 1
+    return out, changed
+
+
+_WRITTEN: dict = {}
+
+
+def written_out(S, fi: FuncInfo) -> FuncInfo:
+    """fi with its loops and comprehensions over literal cases written out case by case and splatted displays turned into plain arguments
+    (fi itself when there is nothing to write out)"""
+    key = (id(S), id(fi.node))
+    if key in _WRITTEN and _WRITTEN[key][0] is fi.node:
+        return _WRITTEN[key][1]
+    from .c01 import normalised
+    node = copy.deepcopy(fi.node)
+    node.body, folded = _collecting_loops(node.body)
+    cur = FuncInfo(fi.module, fi.qual, ast.fix_missing_locations(node), fi.cls, fi.parent) if folded else fi
+    cur = normalised(S, cur)
+    for _ in range(4):
+        node = copy.deepcopy(cur.node)
+        w = _WriteOut(S, cur, node)
+        node = w.visit(node)
+        if not w.changed:
+            break
+        ast.fix_missing_locations(node)
+        cur = FuncInfo(fi.module, fi.qual, node, fi.cls, fi.parent)
+    _WRITTEN[key] = (fi.node, cur)
+    return cur
+
+
 def r13_1(chk: Check) -> None:
     S = chk.src
-    fi = S.func(f"{BS}.getDeltas")
+    fi = written_out(S, S.func(f"{BS}.getDeltas"))
     chk.touch(fi.name)
     prm = [p for p in fi.params() if p != "self"]
     if len(prm) != 1:
@@ -153,7 +443,7 @@ def cardinal_before_weights(chk: Check, rule: str) -> None:
     already hold grid values (Cardinal basis) -- otherwise the result depends on the basis chosen for deltaF."""
     S = chk.src
     for fname in ("getDeltas", "checkLinearization"):
-        fi = S.func(f"{BS}.{fname}")
+        fi = written_out(S, S.func(f"{BS}.{fname}"))
         chk.touch(fi.name)
         cx = Ctx(S, fi)
         g = CFG(fi.node)
@@ -216,7 +506,7 @@ def _alpha(fi: FuncInfo) -> FuncInfo:
 
 def r13_2(chk: Check) -> None:
     S = chk.src
-    fi = S.func("equationOfMotion:EOM.deltaToTmunu")
+    fi = written_out(S, S.func("equationOfMotion:EOM.deltaToTmunu"))
     chk.touch(fi.name)
     prm = [p for p in fi.params() if p != "self"]
     if len(prm) != 4:
@@ -267,7 +557,7 @@ def r13_2(chk: Check) -> None:
     fp = S.func("equationOfMotion:EOM.findPlasmaProfilePoint")
     chk.touch(fp.name)
     calls = calls_in(fp.node, "deltaToTmunu")
-    G = Flat(S, fp)
+    G = Flat(S, fp, keep_calls={"deltaToTmunu"})
     s = {}
     call = None
     rc = {nf(c): c for vals in G.defs.values() for v_ in vals for c in ast.walk(v_) if isinstance(c, ast.Call) and (dotted(c.func) or "").endswith("deltaToTmunu")}
@@ -313,7 +603,7 @@ def _builder(ci, meth: str, depth: int = 0):
 
 def r13_4(chk: Check) -> None:
     S = chk.src
-    fi = S.func(f"{BS}.getDeltas")
+    fi = written_out(S, S.func(f"{BS}.getDeltas"))
     cx = Ctx(S, fi)
     ts = [c for c in calls_in(fi.node, "takeSlice")]
     ok = False
@@ -355,6 +645,7 @@ def r13_4(chk: Check) -> None:
             fm = _builder(ci, meth)
             if fm is None:
                 raise AnchorMissing(f"{cname}.{meth} not found")
+            fm = written_out(S, fm)
             chk.touch(fm.name)
             cm = Ctx(S, fm)
             rets = [cm.resolve(r.value) for r in own_nodes(fm.node) if isinstance(r, ast.Return) and r.value is not None]
